@@ -732,7 +732,7 @@ def mread_configs(tier):
                         if pn != 'gl' and h not in ('fresh', 'h501'): continue
                         if pat != 'pos' and h in ('cross-copy', 'cross-sep', 'h101'): continue
                     out.append({'name': f'set={sname};phases={pn};flows={pat};history={h}', 'world': world_cfg(sname),
-                                'phases': list(ph), 'flows': pat, 'history': h, 'rich': tier == 'thorough'})
+                                'phases': list(ph), 'flows': pat, 'history': h, 'rich': tier == 'thorough' and len(SETS[sname]) <= 4})
     return out
 
 
@@ -762,7 +762,7 @@ def read_multi(w, cfg):
     check_items(w, spec, s, items, True, 'read[{}] = positional read (repeated lookup)')
     ensure_coherent(w, spec, s, 'after the lookups')
     # a second indexer on the same (phases, chemicals) shares the class-level cache: same answers there
-    s2 = new_stream(th, cfg['phases'])
+    s2 = new_stream(th, phases)              # (the history may have added phases to s)
     plant(w, s2, 's2', 'pos' if spec.n * len(phases) <= 8 else 'empty')
     check_items(w, spec, s2, items[::3], True, 'second indexer sharing the cache: every lookup = positional read', per_label=False)
     w.ensure('reads leave the flow data without stored zeros', stored_nonzero(w, s))
@@ -806,7 +806,8 @@ def make_value(w, spec, key, shape, tag='v'):
         m = spec.n
     else:
         m = len(key)
-    vals = [w.real(f'{tag}{i}') for i in range(m)]
+    # any real value; in long arrays only the first three may be zero (each maybe-zero value doubles the paths)
+    vals = [w.real(f'{tag}{i}', nonzero=(i >= 3)) for i in range(m)]
     if shape == 'list':
         return vals
     return np.array(vals, dtype=object if w.symbolic else float)
@@ -895,13 +896,13 @@ def mwrite_ops(spec, phases):
 def mwrite_configs(tier):
     out = []
     ps = {'gl': ('g', 'l'), 'Ll': ('L', 'l')} if tier != 'thorough' else {'gl': ('g', 'l'), 'Ll': ('L', 'l'), 'gls': ('g', 'l', 's')}
-    for sname in _sets(tier, quick=(1, 2, 3, 4), thorough=(1, 2, 3, 4, 5, 8)):
+    for sname in _sets(tier, quick=(1, 2, 3, 4), thorough=(1, 2, 3, 4, 6)):
         wc = world_cfg(sname)
         for pn, ph in ps.items():
             ops = mwrite_ops(Spec(wc), ph)
             for i, (lab, p, ck, shape) in enumerate(ops):
                 if tier != 'thorough' and pn != 'gl' and i % 3: continue
-                for h in (['fresh', 'h501', 'cross-mix'] if tier == 'thorough' else ['fresh']):
+                for h in (['fresh', 'h501', 'cross-mix'] if tier == 'thorough' and i % 4 == 0 else ['fresh']):
                     out.append({'name': f'set={sname};phases={pn};op={i}:{lab}={shape};history={h}', 'world': wc,
                                 'phases': list(ph), 'op': i, 'history': h, 'flows': 'sparse' if i % 2 else 'pos'})
     return out
